@@ -961,6 +961,7 @@ func c15Sinks(r *Rng, nrand int) []c15Sink {
 }
 
 var c15PubStrs = []string{"n", "a b", "x\"y", "l1\nl2", "k=v", "", "y> & z", "back\\slash"}
+
 // no public text contains "<" (first character of the marker token; see wf in Check/C15.v), so no int 60 either
 var c15PubInts = []int64{5, 42, 65, -3, 1000000, 0, 39, 92}
 
